@@ -130,6 +130,9 @@ func c03(tier string) []*explore.Scenario {
 	for _, k := range []string{"Bidi", "CStream", "SStream"} {
 		out = append(out, c03ServerReset(k, 1))
 	}
+	for _, when := range []string{"on-request", "on-reply", "never"} {
+		out = append(out, c03UnaryCancelRace(when, 2))
+	}
 	for _, kind := range []string{"Unary", "Bidi", "SStream", "CStream"} {
 		out = append(out, c03Shapes(kind, tier == "thorough"))
 	}
@@ -276,6 +279,48 @@ func c03ServerReset(kind string, bound int) *explore.Scenario {
 			}
 			if r.HStarts != 0 {
 				vsched.Fail(fam+"|handler-ran", "a handler ran for a stream whose open was lost")
+			}
+			p := w.Rec("probe", "Unary")
+			w.CallUnary(d.CC, context.Background(), p, "x")
+			checkUnary(p, "x", fam)
+			finishDirect(d, w, false)
+		},
+	}
+}
+
+// c03UnaryCancelRace: a unary handler fails with a status; the caller's context
+// is cancelled the moment the request (or the reply) goes onto the wire, so the
+// cancellation races with the arrival of the failed reply. Whatever wins, the
+// caller sees a failure - the handler's status or the context's - never success.
+func c03UnaryCancelRace(when string, bound int) *explore.Scenario {
+	fam := "C03/unary-cancel-race"
+	return &explore.Scenario{
+		Name: "C03/unary-cancel-race/cancel-" + when, Family: fam, Prop: "C03", Bound: bound,
+		Run: func() {
+			w := env.NewWorld()
+			d := env.NewDirect(w, env.DirectOpts{Pipe: env.PipeOpts{Cap: 64}})
+			vsched.Settle()
+			vsched.Explore(true)
+			ctx, cancel := context.WithCancel(context.Background())
+			defer cancel()
+			d.Pipe.OnEvent = func(n int, dir string, rpc *env.Rpc) {
+				if (when == "on-request" && dir == "a2b") || (when == "on-reply" && dir == "b2a") {
+					cancel()
+				}
+			}
+			r := w.Rec("u", "Unary")
+			w.Unaries["u"] = func(r *env.Rec, hctx context.Context, in string) (string, error) {
+				return "", status.Error(codes.NotFound, "no such thing")
+			}
+			vsched.GoNamed("caller-u", func() { w.CallUnary(d.CC, ctx, r, "x") })
+			vsched.Quiesce()
+			vsched.Obs("cancel %s: done=%v err=%s reply=%q", when, r.CDone, env.ErrStr(r.CErr), r.CReply)
+			if !r.CDone {
+				vsched.Fail(fam+"|hang", "the unary call never returned")
+			} else if r.CErr == nil {
+				vsched.Fail(fam+"|failure-reported-as-success", "the handler failed with NotFound and the caller's context was cancelled %s: the caller saw success (reply %q)", when, r.CReply)
+			} else if c := status.Code(r.CErr); c != codes.NotFound && c != codes.Canceled && r.CErr != context.Canceled {
+				vsched.Fail(fam+"|status", "the handler failed with NotFound and the caller's context was cancelled %s: the caller saw %s", when, env.ErrStr(r.CErr))
 			}
 			p := w.Rec("probe", "Unary")
 			w.CallUnary(d.CC, context.Background(), p, "x")
